@@ -132,7 +132,8 @@ class C06(common.Prop):
                 out.append(c)
                 continue
             c = molgen.layered_case(rng, nmax=rng.choice([5, 8, 10]), coarse_last=rng.random() < 0.3,
-                                    squash=rng.random() < 0.4, reuse_names=rng.random() < 0.35)
+                                    squash=rng.random() < 0.4, reuse_names=rng.random() < 0.35,
+                                    virtual=rng.random() < 0.25)
             if c is None:
                 continue
             # a history on ONE resolver object, beyond the three fresh ways
@@ -323,7 +324,7 @@ class C06(common.Prop):
 
     def case_class(self, case, impl):
         return 'levels=%s %s%s' % (case.get('levels'), 'coarse-last' if case['coarse_last'] else 'atomistic-last',
-                                   (' shared-node' if case.get('squash') else '') + (' reused-names' if case.get('reuse_names') else '')
+                                   (' shared-node' if case.get('squash') else '') + (' virtual-site' if case.get('virtual') else '') + (' reused-names' if case.get('reuse_names') else '')
                                    + (' block|n' if case.get('block') else '') + (' graph-level' if impl.get('gl') else ''))
 
     def nontrivial(self, case, impl):
